@@ -14,6 +14,7 @@ Parts:
               L2 = per-subset flatten(L4), L4 = DataQuerent result.
 Oracle: mc.ref.scriptlang.
 """
+from mc import REPO
 import itertools
 import os
 
@@ -130,7 +131,7 @@ def run_case(case):
     if case.get('file') == '<generated>':
         s = generated_message(case['counts'], case['compressed'])
     else:
-        s = open(os.path.join('/repo/tests', case['file']), 'rb').read()
+        s = open(os.path.join(REPO, 'tests', case['file']), 'rb').read()
     msg = Decoder().process(s, file_path='F.bufr')
     q = case['query']
     script = 'a = ${%s}\nb = PBK_FILENAME\nc = PBK_BUFR_MESSAGE\n' % q
@@ -219,7 +220,7 @@ def build_run_cases(tier):
                 continue
             cases.append({'kind': 'mdonly', 'items': [list(i) for i in items]})
     for fn in POOL_FILES:
-        s = open(os.path.join('/repo/tests', fn), 'rb').read()
+        s = open(os.path.join(REPO, 'tests', fn), 'rb').read()
         msg = Decoder().process(s)
         td = msg.template_data.value
         labels = []
